@@ -25,6 +25,12 @@
     Hypothesis [mem_bytes m] (all theorems): every cell of the memory is a byte (< 256).  The model's [rd] adds up
     whatever numbers the segments hold; Go's loads read bytes.  Every memory the harness builds satisfies it and
     stores preserve it.
+    Further side conditions (audit A): C10_visitMemRegions_is_translation and C10_visitElfSections_is_translation speak only
+    about runs of the model that END (outcome neither Hang nor Runaway: e.g. a memory-map entry size of 0 or a tag of size
+    0 is outside them; only the two findTag theorems also identify Hang with GFuel) and need fuel >= find_fuel m, > the
+    visitor call cap n, resp. >= total_len m + 1 and >= 2^16; the visitor is a deterministic function of call number and
+    region.  The *_on_block theorems inherit the well-formedness of the WHOLE block (mbinfo_wf: also the command-line and
+    framebuffer tags, block < 2 GiB) and the two-segment layout (layout_wf), not only of the tag they decode.
 
     ASSUMED / trusted: gen/gotrans incl. ext_mb.go; Lib/GoOps.v, Lib/GoOpsFmt.v ([gsext]); the seam's contract (the
     visitor reads the entry it is given and does not write the information block); little-endian loads.
